@@ -43,6 +43,14 @@ def env():
     return e
 
 
+INCLI = os.path.join(VERIF, 'kani', 'incli')
+
+
+def package_of(harness):
+    """k_cli_* harnesses live in the binary crate (hook in cli/src/main.rs), all others in sfs-core"""
+    return 'sfs-cli' if harness.startswith('k_cli_') else 'sfs-core'
+
+
 def harness_modules():
     return sorted(os.path.splitext(f)[0] for f in os.listdir(INCRATE)
                   if f.endswith('.rs') and f not in ('mod.rs', 'util.rs'))
@@ -50,6 +58,8 @@ def harness_modules():
 
 def module_of(harness):
     """which incrate module defines a harness"""
+    if package_of(harness) == 'sfs-cli':
+        return 'cli'
     for m in harness_modules():
         txt = open(os.path.join(INCRATE, m + '.rs')).read()
         if re.search(r'\bfn\s+' + re.escape(harness) + r'\b', txt) or re.search(r'!\(\s*' + re.escape(harness) + r'\s*,', txt):
@@ -71,6 +81,8 @@ _FULL = {}
 
 def full_name(short):
     """fully qualified harness name for --exact (short names can be prefixes of each other)"""
+    if package_of(short) == 'sfs-cli':
+        return 'verif_kani::' + short
     if not _FULL:
         for m in harness_modules():
             txt = open(os.path.join(INCRATE, m + '.rs')).read()
@@ -83,13 +95,13 @@ def full_name(short):
 
 def ensure_playback_files(clear=False):
     os.makedirs(PLAYBACK_DIR, exist_ok=True)
-    for m in harness_modules():
+    for m in harness_modules() + ['cli']:
         p = os.path.join(PLAYBACK_DIR, m + '.rs')
         if clear or not os.path.exists(p):
             open(p, 'w').write('')
 
 
-def _run_chunk(names, repo='/repo', jobs=8, harness_timeout=600, total_timeout=7200, unwind=None, extra=()):
+def _run_chunk(names, repo='/repo', jobs=8, harness_timeout=600, total_timeout=7200, unwind=None, extra=(), pkg='sfs-core'):
     t0 = time.time()
     res = {'status': 'inconclusive', 'harnesses': {}, 'reason': '', 'wall_s': 0.0, 'cmd': ''}
     if not names:
@@ -99,7 +111,7 @@ def _run_chunk(names, repo='/repo', jobs=8, harness_timeout=600, total_timeout=7
     out_json = os.path.join(BUILD, 'kani-result-%d.json' % os.getpid())
     if os.path.exists(out_json):
         os.remove(out_json)
-    cmd = ['cargo', 'kani', '-p', 'sfs-core', '--target-dir', TARGET,
+    cmd = ['cargo', 'kani', '-p', pkg, '--target-dir', TARGET,
            '-Z', 'unstable-options', '-Z', 'function-contracts', '-Z', 'stubbing',
            '--export-json', out_json, '--harness-timeout', f'{harness_timeout}s',
            '-j', str(jobs), '--output-format', 'terse']
@@ -273,9 +285,13 @@ def run_harnesses(names, repo='/repo', jobs=6, harness_timeout=600, total_timeou
         return merged
     rank = {'ok': 0, 'inconclusive': 1, 'failed': 2}
     reasons = []
-    for i in range(0, len(names), CHUNK):
-        r = _run_chunk(names[i:i + CHUNK], repo=repo, jobs=jobs, harness_timeout=harness_timeout,
-                       total_timeout=total_timeout, unwind=unwind, extra=extra)
+    chunks = []
+    for pkg in ('sfs-core', 'sfs-cli'):
+        sub = [n for n in names if package_of(n) == pkg]
+        chunks += [(pkg, sub[i:i + CHUNK]) for i in range(0, len(sub), CHUNK)]
+    for pkg, chunk in chunks:
+        r = _run_chunk(chunk, repo=repo, jobs=jobs, harness_timeout=harness_timeout,
+                       total_timeout=total_timeout, unwind=unwind, extra=extra, pkg=pkg)
         merged['harnesses'].update(r['harnesses'])
         merged['wall_s'] += r['wall_s']
         merged['cmd'] = merged['cmd'] or r['cmd']
@@ -291,7 +307,7 @@ def run_harnesses(names, repo='/repo', jobs=6, harness_timeout=600, total_timeou
 def counterexample(harness, repo='/repo', harness_timeout=900):
     """re-run one failing harness with concrete playback; returns list of generated
     unit tests (text) for failed assertions (not covers)."""
-    cmd = ['cargo', 'kani', '-p', 'sfs-core', '--target-dir', TARGET,
+    cmd = ['cargo', 'kani', '-p', package_of(harness), '--target-dir', TARGET,
            '-Z', 'unstable-options', '-Z', 'function-contracts', '-Z', 'stubbing', '-Z', 'concrete-playback',
            '--concrete-playback=print', '--harness-timeout', f'{harness_timeout}s',
            '--output-format', 'terse', '--exact', '--harness', full_name(harness) or harness]
@@ -325,7 +341,7 @@ def native_replay(harness, test_text, test_name, repo='/repo'):
         f.write(test_text)
     e = env()
     e['CARGO_TARGET_DIR'] = PLAYBACK_TARGET
-    cmd = ['cargo', 'kani', 'playback', '-Z', 'concrete-playback', '-p', 'sfs-core', '--', test_name, '--exact'][:-1]
+    cmd = ['cargo', 'kani', 'playback', '-Z', 'concrete-playback', '-p', package_of(harness), '--', test_name, '--exact'][:-1]
     try:
         p = subprocess.run(cmd, cwd=repo, env=e, capture_output=True, text=True, timeout=1800)
     finally:
